@@ -9,6 +9,7 @@ import (
 	"net/http/httptest"
 	"reflect"
 	"strings"
+	"sync"
 	"sync/atomic"
 	"testing"
 	"time"
@@ -481,6 +482,69 @@ func ages(ts []time.Time, now time.Time) []time.Duration {
 	return out
 }
 
+// expiry of many failures recorded at the same instant: every one of them
+// must be taken off the count again.
+type burstCase struct {
+	TimeoutMs int `json:"fail_timeout_ms"`
+	Burst     int `json:"burst"`  // simultaneous failing requests per round
+	Rounds    int `json:"rounds"` // rounds, each waiting for the count to return to zero
+}
+
+func runBurst(c *burstCase) error {
+	T := time.Duration(c.TimeoutMs) * time.Millisecond
+	text := fmt.Sprintf("proxy / http://h0.test:80 {\n max_fails 1000000\n fail_timeout %dms\n}\n", c.TimeoutMs)
+	ups, err := proxy.NewStaticUpstreams(casketfile.NewDispenser("Testfile", strings.NewReader(text)), "")
+	if err != nil {
+		return fmt.Errorf("HARNESS: %v", err)
+	}
+	defer ups[0].Stop()
+	pool := reflect.ValueOf(ups[0]).Elem().FieldByName("Hosts").Interface().(proxy.HostPool)
+	h := pool[0]
+	h.ReverseProxy.Transport = failingTransport{}
+	p := proxy.Proxy{Next: httpserver.EmptyNext, Upstreams: ups}
+	for round := 0; round < c.Rounds; round++ {
+		var wg sync.WaitGroup
+		start := make(chan struct{})
+		for i := 0; i < c.Burst; i++ {
+			wg.Add(1)
+			go func() {
+				defer wg.Done()
+				<-start
+				p.ServeHTTP(httptest.NewRecorder(), httptest.NewRequest("GET", "/", nil))
+			}()
+		}
+		close(start)
+		wg.Wait()
+		if got := atomic.LoadInt32(&h.Fails); got > int32(c.Burst) {
+			return fmt.Errorf("round %d: fail count %d after %d failures", round, got, c.Burst)
+		}
+		deadline := time.Now().Add(10*T + 3*time.Second)
+		for atomic.LoadInt32(&h.Fails) != 0 {
+			if time.Now().After(deadline) {
+				return fmt.Errorf("round %d: %d failures were recorded at the same instant; long after all of them expired (fail_timeout %v) the fail count is still %d", round, c.Burst, T, atomic.LoadInt32(&h.Fails))
+			}
+			time.Sleep(T / 8)
+		}
+		if atomic.LoadInt64(&h.Conns) != 0 {
+			return fmt.Errorf("round %d: in-flight count %d with no traffic", round, atomic.LoadInt64(&h.Conns))
+		}
+	}
+	return nil
+}
+
+func TestExpiryBurst(t *testing.T) {
+	if vt.ReplayPath() != "" {
+		t.Skip("replay mode")
+	}
+	rapid.Check(t, func(t *rapid.T) {
+		c := &burstCase{TimeoutMs: rapid.SampledFrom([]int{50, 100}).Draw(t, "T"), Burst: rapid.SampledFrom([]int{64, 200, 400, 800}).Draw(t, "burst"), Rounds: rapid.IntRange(3, 12).Draw(t, "rounds")}
+		err := runBurst(c)
+		vt.Record("expiry-burst", c, c.Burst >= 200, fmt.Sprintf("burst=%d", c.Burst))
+		vt.Extra("expiry-burst", "simultaneous_failures", c.Burst*c.Rounds)
+		vt.Check(t, "expiry-burst", c, err)
+	})
+}
+
 func TestExpiry(t *testing.T) {
 	if vt.ReplayPath() != "" {
 		t.Skip("replay mode")
@@ -507,6 +571,12 @@ func replayCase(rf *vt.ReplayFile) error {
 		}
 		_, err := runCase(&c)
 		return err
+	case "expiry-burst":
+		var c burstCase
+		if err := vt.Decode(rf, &c); err != nil {
+			return err
+		}
+		return runBurst(&c)
 	case "expiry":
 		var c expiryCase
 		if err := vt.Decode(rf, &c); err != nil {
